@@ -3549,7 +3549,19 @@ impl<'a, R: FileManager> FrontendCtx<'a, R> {
                 let mut prefix_items = vec![];
                 let mut items = None;
                 for it in elem_types {
-                    if let TsType::TsRestType(TsRestType { type_ann, .. }) = &*it.ty {
+                    // labelled members carry their modifiers on the label: `...rest: T[]`, `b?: T`
+                    let rest_ann = match (&it.label, &*it.ty) {
+                        (_, TsType::TsRestType(TsRestType { type_ann, .. })) => Some(type_ann),
+                        (Some(swc_ecma_ast::Pat::Rest(_)), _) => Some(&it.ty),
+                        _ => None,
+                    };
+                    if let Some(swc_ecma_ast::Pat::Ident(label)) = &it.label
+                        && label.id.optional
+                    {
+                        return self
+                            .error(&anchor, DiagnosticInfoMessage::OptionalTypeIsNotSupported);
+                    }
+                    if let Some(type_ann) = rest_ann {
                         if items.is_some() {
                             return self.error(
                                 &anchor,
